@@ -49,7 +49,8 @@ def sync_family(ctx, progs, want=("complete", "sound", "fails", "trace"), tcap=N
     res = core.run_loom(ctx, progs, cfg_of=lambda p: {"iter_cap": iter_cap(ctx.tier), "trace_cap": tcap if "trace" in want else 0})
     nontriv = 0
     for p, lo, up, r in zip(progs, lower, upper, res):
-        wv = families.waived(p) if waive else {}
+        # waivers (open findings) apply to generated programs only; directed shapes get the full comparison
+        wv = families.waived(p) if waive and "sync" in p.get("tags", []) else {}
         for k, f in wv.items():
             if k in want:
                 ctx.cov["waived"] = ctx.cov.get("waived", {})
@@ -72,4 +73,49 @@ def C01(ctx):
     sync_family(ctx, progs)
 
 
-CHECKS = {"C01": C01, "C02": C02, "C03": C03}
+def C04(ctx):
+    ctx.assumptions += ["'must report' iff a race is reachable under the strongest documented synchronisation AND the weakest; "
+                        "'must not report' iff unreachable under both; programs on which they disagree decide nothing",
+                        "happens-before = vector clocks carried by LoomSem views (spawn/join, locks, channels, park token, "
+                        "release/acquire incl. fences and release sequences)"]
+    progs = families.races(ctx.tier, ctx.seed)
+    sync_family(ctx, progs, want=("fails", "sound", "trace"))
+
+
+def C05(ctx):
+    ctx.assumptions += ["deadlock = some started thread not finished and no thread has a guaranteed step "
+                        "(a spurious Notify return is never guaranteed)",
+                        "park token independent of every other kind of blocking (std semantics)"]
+    sync_family(ctx, families.blocking(ctx.tier, ctx.seed), want=("fails", "sound", "complete", "trace"))
+
+
+def C07(ctx):
+    ctx.assumptions += ["trace validation evaluates the spec lock machine's enabling condition at every recorded "
+                        "lock/try_lock/read/write/try_* event; protected cells make a missing hand-over edge a race"]
+    sync_family(ctx, families.locks(ctx.tier, ctx.seed))
+
+
+def C08(ctx):
+    ctx.assumptions += ["condvar: no spurious wake-ups; notify_one wakes any one waiter (Upper) / the first (Lower)",
+                        "Notify: at most one spurious return per object (Upper) / none (Lower)"]
+    sync_family(ctx, families.waits(ctx.tier, ctx.seed))
+
+
+def C09(ctx):
+    ctx.assumptions += ["channel = FIFO sequence; send after the receiver was dropped queues nothing (std)"]
+    sync_family(ctx, families.chans(ctx.tier, ctx.seed))
+
+
+def C10(ctx):
+    ctx.assumptions += ["leak at termination = some arc count > 0, some Track not dropped (mem::forget keeps it live), "
+                        "or a non-empty channel; whatever the program does not release is leaked by the interpreter, never released for it"]
+    sync_family(ctx, families.leaks(ctx.tier, ctx.seed), want=("fails", "sound", "trace"))
+
+
+def C11(ctx):
+    ctx.assumptions += ["reference count machine: count/get_mut/try_unwrap read the count at that instant; payload dropped by "
+                        "the decrement that reaches zero; the payload's Drop writes a cell every owner reads before dropping"]
+    sync_family(ctx, families.arcs_family(ctx.tier, ctx.seed))
+
+
+CHECKS = {"C10": C10, "C11": C11, "C01": C01, "C04": C04, "C05": C05, "C07": C07, "C08": C08, "C09": C09, "C02": C02, "C03": C03}
